@@ -32,10 +32,16 @@ package syncdrv
 import (
 	"fmt"
 	"math/rand"
+	"os"
+	"reflect"
 	"strings"
+	"time"
+	"unsafe"
 
 	"github.com/btcsuite/btcd/chainhash/v2"
 	"github.com/btcsuite/btcd/wire/v2"
+	"github.com/btcsuite/btcwallet/walletdb"
+	"go.etcd.io/bbolt"
 	"verifharness/netsim"
 	"verifharness/tr"
 )
@@ -88,6 +94,16 @@ func (r *rig) reqLine(k int, loc []chainhash.Hash, hs []*wire.BlockHeader) {
 	r.t.Hit("ev.req")
 	if newOnes == 0 && tip.Height > fork {
 		r.t.Hit("req.learns-nothing")
+	}
+}
+
+// noSync switches the file syncs of the rig's database off (walletdb's bdb driver has no option for it; its
+// DB is a `type db bbolt.DB`): the long-chain cases roll back and rewrite thousands of headers, one database
+// transaction each, and nothing here depends on durability (no crash, no reopen).
+func noSync(db walletdb.DB) {
+	v := reflect.ValueOf(db)
+	if v.Kind() == reflect.Ptr && v.Elem().Type().ConvertibleTo(reflect.TypeOf(bbolt.DB{})) {
+		(*bbolt.DB)(unsafe.Pointer(v.Pointer())).NoSync = true
 	}
 }
 
@@ -166,6 +182,7 @@ func scenColludingBelowCheckpoint(t *tr.W, rng *rand.Rand, w *netsim.World, base
 		return
 	}
 	defer r.close()
+	noSync(r.db)
 	l1 := r.add(netsim.Behaviour{Kind: "lighterFork"}, first)
 	l2 := r.add(netsim.Behaviour{Kind: "lighterFork"}, bogus)
 	h := r.add(netsim.Behaviour{Kind: "honest"}, nil)
@@ -189,9 +206,19 @@ func scenColludingBelowCheckpoint(t *tr.W, rng *rand.Rand, w *netsim.World, base
 
 func runLong(t *tr.W) {
 	rng := tr.Rng(4043) // a stream of its own: the other cases keep their draws
+	t0 := time.Now()
+	lap := func(what string) {
+		if os.Getenv("VERIF_SYNC_DEBUG") != "" {
+			fmt.Fprintf(os.Stderr, "bm-sync long: %s %v\n", what, time.Since(t0))
+		}
+		t0 = time.Now()
+	}
 	w, base := longWorld(rng)
+	lap("world")
 	for _, how := range []string{"restart", "syncpeer-left", "earlier-reorg"} {
 		scenInvAfterReanchor(t, rng, w, base, how)
+		lap("inv-after-" + how)
 	}
 	scenColludingBelowCheckpoint(t, rng, w, base)
+	lap("colluding")
 }
